@@ -755,6 +755,14 @@ var rtFeats = map[string]rtFeat{
 		_, err := x.doc.AddCellImageFromData(t, 0, 0, tinyJPEGSize(60+x.i, 4, 2), 12.5)
 		return err
 	}),
+	"t.cellimage.same": onT(func(x *rtCtx, t *document.Table) error {
+		data := tinyPNGSize(80+x.i, 5, 5)
+		if _, err := x.doc.AddCellImage(t, 0, 0, &document.CellImageConfig{Data: data, AltText: "twin a"}); err != nil {
+			return err
+		}
+		_, err := x.doc.AddCellImage(t, t.GetRowCount()-1, t.GetColumnCount()-1, &document.CellImageConfig{Data: append([]byte{}, data...), AltText: "twin b"})
+		return err
+	}),
 	"t.cellimage.file": onT(func(x *rtCtx, t *document.Table) error {
 		fn := filepath.Join(rtTemp(), fmt.Sprintf("cell E%d.png", x.i))
 		if err := os.WriteFile(fn, tinyPNGSize(70+x.i, 6, 3), 0o644); err != nil {
